@@ -116,7 +116,7 @@ def main():
     if args and args[0] == "seeded":
         for d in sorted(glob.glob(os.path.join(HERE, "seeded", "*"))):
             meta = json.load(open(os.path.join(d, "meta.json")))
-            r = evaluate_mutant(os.path.join(d, "patch.diff"), meta["property"], demo=os.path.join(d, "demo.py"))
+            r = evaluate_mutant(os.path.join(d, "patch.diff"), meta.get("verif", {}).get("check_property") or meta["property"], demo=os.path.join(d, "demo.py"))
             results.append(r)
             if meta.get("verif", {}).get("expected_not_caught"):
                 r["expected_not_caught"] = True  # recorded as outside the claimed properties (see meta.json)
